@@ -16,10 +16,10 @@ PROP = dict(
     rule="case = one generated model / shipped deck (4+ objects round-tripped) or one set of random dynamic states; non-trivial: the "
          "objects were built; distinct = hash of the deck text / random state",
     stages=[
-        dict(id="gen", harness="c11_serial", flavour="plain", cases={Q: 400, T: 6000}, timeout={Q: 900, T: 7200}, args=["mode=gen"]),
+        dict(id="gen", harness="c11_serial", flavour="plain", cases={Q: 400, T: 12000}, timeout={Q: 900, T: 7200}, args=["mode=gen"]),
         dict(id="shipped", harness="c11_serial", flavour="plain", cases={Q: 52, T: 52}, timeout={Q: 1200, T: 3600}, args=["mode=shipped"]),
-        dict(id="tables", harness="c11_serial", flavour="plain", cases={Q: 3000, T: 60000}, timeout={Q: 900, T: 7200}, args=["mode=tables"]),
-        dict(id="dyn", harness="c11_serial", flavour="plain", cases={Q: 4000, T: 100000}, timeout={Q: 900, T: 7200}, args=["mode=dyn"]),
+        dict(id="tables", harness="c11_serial", flavour="plain", cases={Q: 3000, T: 120000}, timeout={Q: 900, T: 7200}, args=["mode=tables"]),
+        dict(id="dyn", harness="c11_serial", flavour="plain", cases={Q: 4000, T: 200000}, timeout={Q: 900, T: 7200}, args=["mode=dyn"]),
         dict(id="tables_asan", harness="c11_serial", flavour="asan", cases={Q: 300, T: 6000}, timeout={Q: 900, T: 7200}, args=["mode=tables"]),
         dict(id="gen_asan", harness="c11_serial", flavour="asan", cases={Q: 48, T: 1000}, timeout={Q: 900, T: 7200}, args=["mode=gen"]),
     ],
